@@ -264,6 +264,18 @@ func (t *trans) expr(e cExpr) (string, vtype) {
 			return "(mod " + a + " " + b + ")", at
 		}
 	case *cField:
+		// pkg.CONST: a package-level constant of another module package
+		if id, ok := x.X.(*cIdent); ok {
+			if _, bound := t.vars[id.Name]; !bound {
+				for path, p := range c.w.pkgs {
+					if path == id.Name || strings.HasSuffix(path, "/"+id.Name) {
+						if cn, ok := p.Pkg.Scope().Lookup(x.F).(*types.Const); ok {
+							return constTerm(cn), vtype{c.sortOf(cn.Type()), cn.Type()}
+						}
+					}
+				}
+			}
+		}
 		if addr, gt, ok := t.place(x); ok {
 			return t.loadAt(addr, gt), vtype{c.sortOf(gt), gt}
 		}
